@@ -79,9 +79,9 @@ theorem Seg.pushBoth {D a N : Nat} (l r : Cell) (lit rit out' : List Cell) (hwA 
       rw [stOf_cons, stOf_cons]
       simp only [h1, h2, and_self, if_true, tri_max_flags]
     · intro x _ hx2
-      rw [(st_facts hwA x).1 hx2, (st_facts hwB x).1 (by omega)]; rfl
+      rw [(st_facts hwA x).1 hx2, (st_facts hwB x).1 (by rw [← e4]; exact hx2)]; rfl
   exact Seg.orStep (Nat.le_trans haA (Nat.le_of_lt hlh)) hN s1 (fun x hx => stOf_tail_of_ge hx)
-    (fun x hx => stOf_tail_of_ge (by omega)) ih
+    (fun x hx => stOf_tail_of_ge (by rw [← e3]; exact hx)) ih
 
 /-- the coarse-cell branch inside the merge: `low` is the current cell of one operand (`low :: lowRest`), the other operand
     is `HB = c0 :: … = sk ++ rest` with `sk` inside `low` and `rest` after it -/
@@ -104,5 +104,164 @@ theorem Seg.pushCoarse {D a N : Nat} (low : Cell) (lowRest HB sk rest pushed out
   intro x hx
   rw [hHB]
   exact stOf_append_of_ge (fun c hc => Nat.le_trans (hsk c hc) hx)
+
+theorem WF.all_ge {D : Nat} {c : Cell} {l : List Cell} {m : Nat} (hw : WF D (c :: l)) (h : m ≤ lo D c) :
+    ∀ c' ∈ c :: l, m ≤ lo D c' := by
+  intro c' hc'
+  rcases List.mem_cons.1 hc' with rfl | hc'
+  · exact h
+  · have := hw.lo_lt c' hc'; omega
+
+/-! ## the merge loop -/
+
+/-- **the merge loop of `or`**: with enough fuel it never returns `none` (no panic), and its output is a well-formed list
+    within `[a, 12·4^D)` denoting the pointwise maximum of what is left of the two operands -/
+theorem orLoop_spec (D : Nat) (hD : D ≤ 29) : ∀ (fuel : Nat) (left : Option Cell) (lit : List Cell) (right : Option Cell)
+    (rit : List Cell) (a : Nat),
+    (rem left lit).length + (rem right rit).length < fuel →
+    WF D (rem left lit) → WF D (rem right rit) → (∀ c ∈ rem left lit, InR c) → (∀ c ∈ rem right rit, InR c) →
+    (∀ c ∈ rem left lit, a ≤ lo D c) → (∀ c ∈ rem right rit, a ≤ lo D c) → a ≤ 12 * 4 ^ D →
+    ∃ out, orLoop fuel left lit right rit = some out ∧
+      Seg D out a (12 * 4 ^ D) (fun x => Tri.max (stOf D (rem left lit) x) (stOf D (rem right rit) x)) := by
+  intro fuel
+  induction fuel with
+  | zero => intro left lit right rit a hf; omega
+  | succ fuel ih =>
+    intro left lit right rit a hf hwA hwB hrA hrB haA haB haN
+    -- the induction hypothesis with the remaining lists named
+    have IH : ∀ (left' : Option Cell) (lit' : List Cell) (right' : Option Cell) (rit' LA LB : List Cell) (a' : Nat),
+        rem left' lit' = LA → rem right' rit' = LB → LA.length + LB.length < fuel → WF D LA → WF D LB →
+        (∀ c ∈ LA, InR c) → (∀ c ∈ LB, InR c) → (∀ c ∈ LA, a' ≤ lo D c) → (∀ c ∈ LB, a' ≤ lo D c) → a' ≤ 12 * 4 ^ D →
+        ∃ out, orLoop fuel left' lit' right' rit' = some out ∧
+          Seg D out a' (12 * 4 ^ D) (fun x => Tri.max (stOf D LA x) (stOf D LB x)) := by
+      intro left' lit' right' rit' LA LB a' e1 e2
+      subst e1; subst e2
+      exact ih left' lit' right' rit' a'
+    cases left with
+    | none =>
+      cases right with
+      | none =>
+        refine ⟨[], by simp only [orLoop], Seg.empty_abs D _ _ _ (fun x _ _ => rfl)⟩
+      | some r =>
+        simp only [rem_some, rem_none] at hf hwB hrB haB ⊢
+        have hNr := hi_le_of_inR hwB.1 (hrB r (by simp))
+        obtain ⟨out', e', s'⟩ := IH none [] rit.head? rit.tail [] rit (hi D r) rfl (rem_head_tail _)
+          (by simp only [List.length_cons, List.length_nil] at hf ⊢; omega) trivial hwB.tail (by simp)
+          (fun c hc => hrB c (by simp [hc])) (by simp) hwB.2.1 hNr
+        refine ⟨r :: out', by simp only [orLoop, e', Option.map_some], ?_⟩
+        exact Seg.pushRight r rit [] out' hwB hNr (haB r (by simp)) (by simp) s'
+    | some l =>
+      simp only [rem_some] at hf hwA hrA haA ⊢
+      have hNl := hi_le_of_inR hwA.1 (hrA l (by simp))
+      have hrlit : ∀ c ∈ lit, InR c := fun c hc => hrA c (by simp [hc])
+      have hal : a ≤ lo D l := haA l (by simp)
+      cases right with
+      | none =>
+        simp only [rem_none] at hf ⊢
+        obtain ⟨out', e', s'⟩ := IH lit.head? lit.tail none [] lit [] (hi D l) (rem_head_tail _) rfl
+          (by simp only [List.length_cons, List.length_nil] at hf ⊢; omega) hwA.tail trivial hrlit (by simp)
+          hwA.2.1 (by simp) hNl
+        refine ⟨l :: out', by simp only [orLoop, e', Option.map_some], ?_⟩
+        exact Seg.pushLeft l lit [] out' hwA hNl hal (by simp) s'
+      | some r =>
+        simp only [rem_some] at hf hwB hrB haB ⊢
+        have hNr := hi_le_of_inR hwB.1 (hrB r (by simp))
+        have hrrit : ∀ c ∈ rit, InR c := fun c hc => hrB c (by simp [hc])
+        have har : a ≤ lo D r := haB r (by simp)
+        have hlen := hf
+        simp only [List.length_cons] at hlen
+        -- "l lies before r": push l, advance left
+        have pushL : hi D l ≤ lo D r → ∃ out', orLoop fuel lit.head? lit.tail (some r) rit = some out' ∧
+            Seg D (l :: out') a (12 * 4 ^ D) (fun x => Tri.max (stOf D (l :: lit) x) (stOf D (r :: rit) x)) := by
+          intro hb
+          obtain ⟨out', e', s'⟩ := IH lit.head? lit.tail (some r) rit lit (r :: rit) (hi D l) (rem_head_tail _) rfl
+            (by simp only [List.length_cons]; omega) hwA.tail hwB hrlit hrB hwA.2.1 (hwB.all_ge hb) hNl
+          exact ⟨out', e', Seg.pushLeft l lit (r :: rit) out' hwA hNl hal (hwB.all_ge hb) s'⟩
+        have pushR : hi D r ≤ lo D l → ∃ out', orLoop fuel (some l) lit rit.head? rit.tail = some out' ∧
+            Seg D (r :: out') a (12 * 4 ^ D) (fun x => Tri.max (stOf D (l :: lit) x) (stOf D (r :: rit) x)) := by
+          intro hb
+          obtain ⟨out', e', s'⟩ := IH (some l) lit rit.head? rit.tail (l :: lit) rit (hi D r) rfl (rem_head_tail _)
+            (by simp only [List.length_cons]; omega) hwA hwB.tail hrA hrrit (hwA.all_ge hb) hwB.2.1 hNr
+          exact ⟨out', e', Seg.pushRight r rit (l :: lit) out' hwB hNr har (hwA.all_ge hb) s'⟩
+        rcases Nat.lt_trichotomy l.depth r.depth with hd | hd | hd
+        · -- `l` is the low-resolution cell
+          have hdl : l.depth ≤ r.depth := Nat.le_of_lt hd
+          rcases Nat.lt_trichotomy l.hash (r.hash >>> ((r.depth - l.depth) <<< 1)) with hh | hh | hh
+          · obtain ⟨out', e', s'⟩ := pushL ((cmp_lt_iff (D := D) hdl hwB.1).1 hh)
+            refine ⟨l :: out', ?_, s'⟩
+            rw [orLoop]; simp only [hd, hh, if_true, e', Option.map_some]
+          · rw [orLoop_coarse_left fuel l r lit rit hd hh]
+            have hin : Inside D l r := ⟨hdl, (cmp_eq_iff (D := D) hdl hwB.1).1 hh⟩
+            obtain ⟨pushed, cell, it', q0, ⟨sk, e, k⟩, q2, q3⟩ := orCoarse_spec D hD l r rit hwA.1 hin hwB hrB
+            rw [q0]
+            simp only
+            have hwt : WF D (sk ++ rem cell it') := e ▸ hwB.tail
+            have hl2 : rit.length = sk.length + (rem cell it').length := by rw [e, List.length_append]
+            obtain ⟨out', e', s'⟩ := IH lit.head? lit.tail cell it' lit (rem cell it') (hi D l) (rem_head_tail _) rfl
+              (by omega) hwA.tail (WF_append_iff.1 hwt).2.1 hrlit
+              (fun c hc => hrrit c (by rw [e]; simp [hc])) hwA.2.1 q2 hNl
+            rw [e']
+            refine ⟨pushed ++ out', rfl, ?_⟩
+            refine Seg.pushCoarse l lit (r :: rit) (r :: sk) (rem cell it') pushed out' hwA hNl hal
+              (by rw [e]; rfl) (hwB.all_ge hin.2.1) ?_ q3 s'
+            intro c hc
+            rcases List.mem_cons.1 hc with rfl | hc
+            · exact hin.2.2
+            · exact k c hc
+          · obtain ⟨out', e', s'⟩ := pushR ((cmp_gt_iff (D := D) hdl hwB.1).1 hh)
+            refine ⟨r :: out', ?_, s'⟩
+            have h1 : ¬ (l.hash < r.hash >>> ((r.depth - l.depth) <<< 1)) := by omega
+            rw [orLoop]; simp only [hd, h1, hh, gt_iff_lt, if_true, if_false, e', Option.map_some]
+        · -- same depth
+          have hc := cmp_same (D := D) hd hwB.1
+          have h0 : ¬ (l.depth < r.depth) := by omega
+          have h0' : ¬ (l.depth > r.depth) := by omega
+          rcases Nat.lt_trichotomy l.hash r.hash with hh | hh | hh
+          · obtain ⟨out', e', s'⟩ := pushL (hc.1.1 hh)
+            refine ⟨l :: out', ?_, s'⟩
+            rw [orLoop]; simp only [h0, h0', hh, if_true, if_false, e', Option.map_some]
+          · have h1 : ¬ (l.hash < r.hash) := by omega
+            have h2 : ¬ (l.hash > r.hash) := by omega
+            obtain ⟨out', e', s'⟩ := IH lit.head? lit.tail rit.head? rit.tail lit rit (hi D l) (rem_head_tail _)
+              (rem_head_tail _) (by omega) hwA.tail hwB.tail hrlit hrrit hwA.2.1
+              (by
+                have e3 : hi D l = hi D r := by unfold hi; rw [hd, hh]
+                rw [e3]; exact hwB.2.1) hNl
+            refine ⟨_ :: out', ?_, Seg.pushBoth l r lit rit out' hwA hwB hNl hal hd hh s'⟩
+            rw [orLoop]; simp only [h0, h0', h1, h2, if_false, e', Option.map_some]
+          · obtain ⟨out', e', s'⟩ := pushR (hc.2.1.1 hh)
+            refine ⟨r :: out', ?_, s'⟩
+            have h1 : ¬ (l.hash < r.hash) := by omega
+            rw [orLoop]; simp only [h0, h0', h1, hh, gt_iff_lt, if_true, if_false, e', Option.map_some]
+        · -- `r` is the low-resolution cell
+          have hdl : r.depth ≤ l.depth := Nat.le_of_lt hd
+          have h0 : ¬ (l.depth < r.depth) := by omega
+          rcases Nat.lt_trichotomy (l.hash >>> ((l.depth - r.depth) <<< 1)) r.hash with hh | hh | hh
+          · obtain ⟨out', e', s'⟩ := pushL ((cmp_gt_iff (D := D) hdl hwA.1).1 hh)
+            refine ⟨l :: out', ?_, s'⟩
+            rw [orLoop]; simp only [h0, hd, gt_iff_lt, hh, if_true, if_false, e', Option.map_some]
+          · rw [orLoop_coarse_right fuel l r lit rit hd hh.symm]
+            have hin : Inside D r l := ⟨hdl, (cmp_eq_iff (D := D) hdl hwA.1).1 hh.symm⟩
+            obtain ⟨pushed, cell, it', q0, ⟨sk, e, k⟩, q2, q3⟩ := orCoarse_spec D hD r l lit hwB.1 hin hwA hrA
+            rw [q0]
+            simp only
+            have hwt : WF D (sk ++ rem cell it') := e ▸ hwA.tail
+            have hl2 : lit.length = sk.length + (rem cell it').length := by rw [e, List.length_append]
+            obtain ⟨out', e', s'⟩ := IH cell it' rit.head? rit.tail (rem cell it') rit (hi D r) rfl (rem_head_tail _)
+              (by omega) (WF_append_iff.1 hwt).2.1 hwB.tail
+              (fun c hc => hrlit c (by rw [e]; simp [hc])) hrrit q2 hwB.2.1 hNr
+            rw [e']
+            refine ⟨pushed ++ out', rfl, ?_⟩
+            have := Seg.pushCoarse r rit (l :: lit) (l :: sk) (rem cell it') pushed out' hwB hNr har
+              (by rw [e]; rfl) (hwA.all_ge hin.2.1) (by
+                intro c hc
+                rcases List.mem_cons.1 hc with rfl | hc
+                · exact hin.2.2
+                · exact k c hc) q3 (s'.mono_g (fun x _ _ => tri_max_comm _ _))
+            exact this.mono_g (fun x _ _ => tri_max_comm _ _)
+          · obtain ⟨out', e', s'⟩ := pushR ((cmp_lt_iff (D := D) hdl hwA.1).1 hh)
+            refine ⟨r :: out', ?_, s'⟩
+            have h1 : ¬ (l.hash >>> ((l.depth - r.depth) <<< 1) < r.hash) := by omega
+            rw [orLoop]; simp only [h0, hd, gt_iff_lt, h1, hh, if_true, if_false, e', Option.map_some]
 
 end Hpx.Bmoc
